@@ -6,18 +6,16 @@ change the `list` report `WorldDriver.runList`. Core Lean only.
 
 Layout: A lists related position by position; B the similarity relations (all decidable); C the
 NetworkPolicy layer (`allowedConns` on similar rule lists); D engines that differ in the inner
-order of their NetworkPolicies; E the report (`runList_rules_perm`); E' the sharp form without the
-hypothesis on named ports (`runList_rules_perm_or`); F findings (what the hypotheses exclude, with
-concrete inputs) and a non-vacuity example.
+order of their NetworkPolicies; E the report (`runList_rules_perm`); F findings (what the
+hypotheses exclude, with concrete inputs) and a non-vacuity example.
 
 Main statements:
 * `runList_rules_perm`: `Forall₂ ObjSim objs objs'` (same objects position by position,
-  NetworkPolicies up to `NpSim`), `NPRulesValid objs`, `NoNamedPorts objs`, `PodsReal objs`,
-  `PodPortsValid objs` ⊢ `runList objs focus = runList objs' focus`.
-* `runList_rules_perm_or`: the same without `NoNamedPorts` ⊢ the reports are equal or one of them
-  is `(err namedPortOnIP)`.
-* `Findings.rule_order_matters`: two inputs that differ in the order of two egress rules only and
-  have different reports (`NoNamedPorts` fails). -/
+  NetworkPolicies up to `NpSim`), `NPRulesValid objs`, `PodsReal objs`, `PodPortsValid objs` ⊢
+  `runList objs focus = runList objs' focus`. (Before `allowedConns` examined every rule a fourth
+  hypothesis, `NoNamedPorts`, excluded a failure that the rule order could mask.)
+* `Findings.rule_order_repaired`: the two inputs that used to have different reports — the order
+  of two egress rules — now have the same one, `(err namedPortOnIP)`. -/
 namespace Netpol.PermRules
 open Netpol Netpol.Engine Netpol.Structure Netpol.PermLayer
 
@@ -406,8 +404,7 @@ theorem RulesSim.valid {l l' : List NPRule} (hs : RulesSim l l') (h : ∀ r ∈ 
 open NetPol.allowedConns in
 /-- the loop of `allowedConns` for an arbitrary peer `other`: whenever it returns a set, the set —
 canonical, without named or excluded ports — denotes the accumulated set and the in-range ports of
-the rules that select `other`. The early exit at "All Connections" does not show: the result then
-denotes the whole port range, which contains what the rules not evaluated would contribute. -/
+the rules that select `other`. -/
 theorem allowedConns_go_den (np : NetPol) (other dst : KPeer) (hd : dst.DstOK)
     (rules : List NPRule) (hv : ∀ r ∈ rules, r.Valid)
     (res : ConnSet) (hcan : res.Canonical) (hpl : Plain res) :
@@ -446,38 +443,22 @@ theorem allowedConns_go_den (np : NetPol) (other dst : KPeer) (hd : dst.DstOK)
         have hw' : (res.union rc).WF := hcan'.1
         have hden' := fun pr x => ConnSet.den_union_wfe hres hw pr x
         have hrule : ∀ pr x, rc.den pr x ↔ (inRange x ∧ portsB r dst pr x = true) := hden
-        show ∀ c, (if (res.union rc).allowAll = true then _ else _) = _ → _
-        cases hall : (res.union rc).allowAll
-        · -- carry on with the union
-          simp only [Bool.false_eq_true, if_false]
-          intro c hc
-          obtain ⟨h1, h2, hcden⟩ := ih hv' (res.union rc) hcan' hpl' c hc
-          refine ⟨h1, h2, fun pr x => ?_⟩
-          rw [hcden, hden', hrule]
-          simp only [List.mem_cons, exists_eq_or_imp, hS, true_and]
-          constructor
-          · rintro ((h | ⟨h1, h2⟩) | ⟨h1, h2⟩)
-            · exact Or.inl h
-            · exact Or.inr ⟨h1, Or.inl h2⟩
-            · exact Or.inr ⟨h1, Or.inr h2⟩
-          · rintro (h | ⟨h1, h2 | h2⟩)
-            · exact Or.inl (Or.inl h)
-            · exact Or.inl (Or.inr ⟨h1, h2⟩)
-            · exact Or.inr ⟨h1, h2⟩
-        · -- early exit: the union is All Connections
-          simp only [if_true]
-          intro c hc
-          cases hc
-          refine ⟨hcan', hpl', fun pr x => ?_⟩
-          rw [ConnSet.den_of_allowAll hw' hall]
-          constructor
-          · intro hx
-            rcases (hden' pr x).mp ((ConnSet.den_of_allowAll hw' hall pr x).mpr hx) with h | h
-            · exact Or.inl h
-            · exact Or.inr ⟨hx, r, List.mem_cons_self .., hS, ((hrule pr x).mp h).2⟩
-          · rintro (h | ⟨h, _⟩)
-            · exact hres.den_inRange h
-            · exact h
+        -- carry on with the union (every rule is examined)
+        show ∀ c, go np other dst (res.union rc) rest = _ → _
+        intro c hc
+        obtain ⟨h1, h2, hcden⟩ := ih hv' (res.union rc) hcan' hpl' c hc
+        refine ⟨h1, h2, fun pr x => ?_⟩
+        rw [hcden, hden', hrule]
+        simp only [List.mem_cons, exists_eq_or_imp, hS, true_and]
+        constructor
+        · rintro ((h | ⟨h1, h2⟩) | ⟨h1, h2⟩)
+          · exact Or.inl h
+          · exact Or.inr ⟨h1, Or.inl h2⟩
+          · exact Or.inr ⟨h1, Or.inr h2⟩
+        · rintro (h | ⟨h1, h2 | h2⟩)
+          · exact Or.inl (Or.inl h)
+          · exact Or.inl (Or.inr ⟨h1, h2⟩)
+          · exact Or.inr ⟨h1, h2⟩
 
 open NetPol.allowedConns in
 /-- the loop succeeds when every rule that selects `other` has an error-free `ruleConnections` -/
@@ -500,10 +481,59 @@ theorem allowedConns_go_ok (np : NetPol) (other dst : KPeer) (rules : List NPRul
     · simp only [Bool.not_true, Bool.false_eq_true, if_false]
       obtain ⟨rc, hrc⟩ := hok r (List.mem_cons_self ..) hS
       rw [hrc]
-      show ∃ c, (if (res.union rc).allowAll = true then _ else _) = _
-      split
-      · exact ⟨_, rfl⟩
-      · exact ih' _
+      exact ih' _
+
+open NetPol.allowedConns in
+/-- … and only then: every rule is examined, so a rule that selects `other` and fails to evaluate
+fails the loop, wherever it stands -/
+theorem allowedConns_go_ok_inv (np : NetPol) (other dst : KPeer) (rules : List NPRule)
+    (hv : ∀ r ∈ rules, r.Valid) (res : ConnSet) {c : ConnSet}
+    (h : go np other dst res rules = .ok c) :
+    ∀ r ∈ rules, selB np other r = true →
+      ∃ rc, NetPol.ruleConnections r.ports (some dst) = .ok rc := by
+  induction rules generalizing res with
+  | nil => intro r hr; cases hr
+  | cons r rest ih =>
+    have hr := hv r (List.mem_cons_self ..)
+    have hv' : ∀ r' ∈ rest, r'.Valid := fun r' h => hv r' (List.mem_cons_of_mem _ h)
+    rw [NetPol.allowedConns.go_cons, ruleSelectsPeer_any np other r.peers hr.2] at h
+    change (if (!selB np other r) = true then _ else _) = _ at h
+    cases hS : selB np other r
+    · rw [hS] at h
+      simp only [Bool.not_false, if_true] at h
+      intro r' hr' hsel
+      rcases List.mem_cons.mp hr' with rfl | hm
+      · rw [hS] at hsel; cases hsel
+      · exact ih hv' res h r' hm hsel
+    · rw [hS] at h
+      simp only [Bool.not_true, Bool.false_eq_true, if_false] at h
+      cases hrc : NetPol.ruleConnections r.ports (some dst) with
+      | error err => rw [hrc] at h; cases h
+      | ok rc =>
+        rw [hrc] at h
+        intro r' hr' hsel
+        rcases List.mem_cons.mp hr' with rfl | hm
+        · exact ⟨rc, hrc⟩
+        · exact ih hv' _ h r' hm hsel
+
+/-- whether a rule evaluates towards `dst` does not depend on the order of its ports: towards a
+pod it always does, towards an IP block iff no port is named -/
+theorem rc_ok_sim {r r' : NPRule} (hs : RuleSim r r') (hv : r.Valid) (dst : KPeer) (hd : dst.DstOK)
+    (h : ∃ rc, NetPol.ruleConnections r.ports (some dst) = .ok rc) :
+    ∃ rc, NetPol.ruleConnections r'.ports (some dst) = .ok rc := by
+  cases dst with
+  | pod p nso =>
+    obtain ⟨c, hc, _⟩ := NetPol.ruleConnections_pod r'.ports p nso hd.1 (hs.valid hv).1 hd.2
+    exact ⟨c, hc⟩
+  | ip r0 =>
+    cases hrc : NetPol.ruleConnections r'.ports (some (.ip r0)) with
+    | ok rc => exact ⟨rc, rfl⟩
+    | error err =>
+      obtain ⟨q, hq, hqn⟩ := (NetPol.ruleConnections_ip_err_iff r'.ports r0).mp ⟨err, hrc⟩
+      obtain ⟨err', herr'⟩ := (NetPol.ruleConnections_ip_err_iff r.ports r0).mpr
+        ⟨q, hs.2.mem_iff.mpr hq, hqn⟩
+      obtain ⟨rc, hrc'⟩ := h
+      rw [hrc'] at herr'; cases herr'
 
 /-- two results of `allowedConns` on similar rule lists are equal -/
 theorem allowedConns_eq_of_ok {np np' : NetPol} (hns : np.ns = np'.ns) {rules rules' : List NPRule}
@@ -523,156 +553,67 @@ theorem allowedConns_eq_of_ok {np np' : NetPol} (hns : np.ns = np'.ns) {rules ru
   rw [this]
 
 /-- **rule order, peer order, port order**: `allowedConns` on two similar rule lists (of two
-policies of one namespace) returns the same connection set, provided no rule that selects the
-peer fails to evaluate -/
+policies of one namespace) returns the same connection set or the same error. Every rule is
+examined, so the call fails iff some rule that selects the peer fails to evaluate — whatever the
+order. -/
 theorem allowedConns_sim {np np' : NetPol} (hns : np.ns = np'.ns) {rules rules' : List NPRule}
     (hs : RulesSim rules rules') (other dst : KPeer) (hd : dst.DstOK)
-    (hv : ∀ r ∈ rules, r.Valid)
-    (hok : ∀ r ∈ rules, selB np other r = true →
-      ∃ rc, NetPol.ruleConnections r.ports (some dst) = .ok rc)
-    (hok' : ∀ r ∈ rules', selB np' other r = true →
-      ∃ rc, NetPol.ruleConnections r.ports (some dst) = .ok rc) :
-    np.allowedConns rules other dst = np'.allowedConns rules' other dst := by
-  obtain ⟨c, hc⟩ : ∃ c, np.allowedConns rules other dst = .ok c :=
-    allowedConns_go_ok np other dst rules hv hok _
-  obtain ⟨c', hc'⟩ : ∃ c, np'.allowedConns rules' other dst = .ok c :=
-    allowedConns_go_ok np' other dst rules' (hs.valid hv) hok' _
-  rw [hc, hc', allowedConns_eq_of_ok hns hs other dst hd hv hc hc']
-
-/-- two results agree, or one of them is the named-port failure -/
-def EqOrNP {α : Type} (x y : Except Err α) : Prop :=
-  x = y ∨ x = .error .namedPortOnIP ∨ y = .error .namedPortOnIP
-
-theorem EqOrNP.refl {α : Type} (x : Except Err α) : EqOrNP x x := Or.inl rfl
-
-theorem EqOrNP.bind {α β : Type} {x y : Except Err α} {f g : α → Except Err β} (h : EqOrNP x y)
-    (hfg : ∀ a, x = .ok a → EqOrNP (f a) (g a)) : EqOrNP (x >>= f) (y >>= g) := by
-  rcases h with h | h | h
-  · subst h
-    cases x with
-    | error err => exact Or.inl rfl
-    | ok a => exact hfg a rfl
-  · subst h; exact Or.inr (Or.inl rfl)
-  · subst h; exact Or.inr (Or.inr rfl)
-
-/-- **without the hypothesis on named ports**: on similar rule lists `allowedConns` returns the
-same set, or fails on one side (or both) with `namedPortOnIP` -/
-theorem allowedConns_or {np np' : NetPol} (hns : np.ns = np'.ns) {rules rules' : List NPRule}
-    (hs : RulesSim rules rules') (other dst : KPeer) (hd : dst.DstOK)
     (hv : ∀ r ∈ rules, r.Valid) :
-    EqOrNP (np.allowedConns rules other dst) (np'.allowedConns rules' other dst) := by
+    np.allowedConns rules other dst = np'.allowedConns rules' other dst := by
+  have hv' := hs.valid hv
   have e1 := (allowedConns_go_struct np other dst hd rules hv _ (ConnSet.canonical_mk false)
     (plain_mk false)).2
-  have e2 := (allowedConns_go_struct np' other dst hd rules' (hs.valid hv) _
+  have e2 := (allowedConns_go_struct np' other dst hd rules' hv' _
     (ConnSet.canonical_mk false) (plain_mk false)).2
   cases hc : np.allowedConns rules other dst with
-  | error err => rw [e1 err hc]; exact Or.inr (Or.inl rfl)
+  | error err =>
+    cases hc' : np'.allowedConns rules' other dst with
+    | error err' => rw [e1 err hc, e2 err' hc']
+    | ok c' =>
+      -- the primed loop evaluates every selecting rule, hence so does the other one
+      have hall := allowedConns_go_ok_inv np' other dst rules' hv' _ hc'
+      obtain ⟨c, hcc⟩ : ∃ c, np.allowedConns rules other dst = .ok c := by
+        apply allowedConns_go_ok np other dst rules hv
+        intro r hr hsel
+        obtain ⟨r', hr', hrr⟩ := hs.fwd hr
+        exact rc_ok_sim hrr.symm (hv' r' hr') dst hd
+          (hall r' hr' (by rw [← selB_sim hns other hrr]; exact hsel))
+      rw [hcc] at hc; cases hc
   | ok c =>
     cases hc' : np'.allowedConns rules' other dst with
-    | error err => rw [e2 err hc']; exact Or.inr (Or.inr rfl)
-    | ok c' => rw [allowedConns_eq_of_ok hns hs other dst hd hv hc hc']; exact Or.inl rfl
+    | error err' =>
+      have hall := allowedConns_go_ok_inv np other dst rules hv _ hc
+      obtain ⟨c', hcc⟩ : ∃ c, np'.allowedConns rules' other dst = .ok c := by
+        apply allowedConns_go_ok np' other dst rules' hv'
+        intro r' hr' hsel
+        obtain ⟨r, hr, hrr⟩ := hs.bwd hr'
+        exact rc_ok_sim hrr (hv r hr) dst hd
+          (hall r hr (by rw [selB_sim hns other hrr]; exact hsel))
+      rw [hcc] at hc'; cases hc'
+    | ok c' => rw [allowedConns_eq_of_ok hns hs other dst hd hv hc hc']
 
-/-- a rule peer is an `ipBlock` -/
-def isIPBlock : NPPeer → Bool
-  | .ip _ _ => true
-  | .sel _ _ => false
-
-/-- a port clause is a named port (Boolean form of `NPPort.isNamed`) -/
-def namedB (q : NPPort) : Bool :=
-  match q.kind with
-  | .name _ => true
-  | _ => false
-
-theorem namedB_false_iff (q : NPPort) : namedB q = false ↔ ¬ q.isNamed := by
-  unfold namedB NPPort.isNamed
-  cases q.kind <;> simp
-
-/-- no egress rule that can select an IP block (no peers at all, or an `ipBlock` peer) has a named
-port. This excludes the one failure of the NetworkPolicy layer, `Err.namedPortOnIP`, whose
-occurrence depends on the rule order (see the findings at the end of the file). -/
-def NoNamedPortOnIP (p : NetPol) : Prop :=
-  ∀ r ∈ p.egress, (r.peers.isEmpty || r.peers.any isIPBlock) = true →
-    ∀ q ∈ r.ports, namedB q = false
-
-instance (p : NetPol) : Decidable (NoNamedPortOnIP p) := by unfold NoNamedPortOnIP; infer_instance
-
-theorem RuleSim.ipSel {r r' : NPRule} (hs : RuleSim r r') :
-    (r.peers.isEmpty || r.peers.any isIPBlock) =
-      (r'.peers.isEmpty || r'.peers.any isIPBlock) := by
-  rw [hs.1.isEmpty_eq, hs.1.any_eq]
-
-theorem NoNamedPortOnIP.sim {p p' : NetPol} (hs : NpSim p p') (h : NoNamedPortOnIP p) :
-    NoNamedPortOnIP p' := by
-  intro r' hr' hsel q hq
-  obtain ⟨r, hr, hrr⟩ := hs.egress.bwd hr'
-  exact h r hr (by rw [hrr.ipSel]; exact hsel) q (hrr.2.mem_iff.mpr hq)
-
-/-- a rule that selects an IP block has no peers or an `ipBlock` peer -/
-theorem ipSel_of_selB {np : NetPol} {r0 : CSet} {r : NPRule} (h : selB np (.ip r0) r = true) :
-    (r.peers.isEmpty || r.peers.any isIPBlock) = true := by
-  unfold selB at h
-  rw [Bool.or_eq_true] at h ⊢
-  rcases h with h | h
-  · exact Or.inl h
-  · right
-    rw [List.any_eq_true] at h ⊢
-    obtain ⟨rp, hrp, hsel⟩ := h
-    refine ⟨rp, hrp, ?_⟩
-    cases rp with
-    | ip c ex => rfl
-    | sel a b => simp [peerSel] at hsel
-
-/-- towards a real pod every rule evaluates -/
-theorem rc_ok_pod {rules : List NPRule} (hv : ∀ r ∈ rules, r.Valid) {p : Pod} {nso : Option NsObj}
-    (hd : (KPeer.pod p nso).DstOK) :
-    ∀ r ∈ rules, ∃ rc, NetPol.ruleConnections r.ports (some (.pod p nso)) = .ok rc := by
-  intro r hr
-  obtain ⟨c, hc, _⟩ := NetPol.ruleConnections_pod r.ports p nso hd.1 (hv r hr).1 hd.2
-  exact ⟨c, hc⟩
-
-/-- egress: every rule that selects the destination evaluates -/
-theorem rc_ok_egress {np : NetPol} (hv : ∀ r ∈ np.egress, r.Valid) (hn : NoNamedPortOnIP np)
-    (dst : KPeer) (hd : dst.DstOK) :
-    ∀ r ∈ np.egress, selB np dst r = true →
-      ∃ rc, NetPol.ruleConnections r.ports (some dst) = .ok rc := by
-  intro r hr hsel
-  cases dst with
-  | pod p nso => exact rc_ok_pod hv hd r hr
-  | ip r0 =>
-    have hnn : ∀ q ∈ r.ports, ¬ q.isNamed := fun q hq =>
-      (namedB_false_iff q).mp (hn r hr (ipSel_of_selB hsel) q hq)
-    obtain ⟨c, hc, _⟩ := NetPol.ruleConnections_ip_ok r.ports r0 0 hnn (hv r hr).1
-    exact ⟨c, hc⟩
-
-/-- the NetworkPolicy is accepted by the API server and evaluates without error -/
+/-- the NetworkPolicy is accepted by the API server: its rules are valid. (Before
+`allowedConns` examined every rule, a third clause excluded named ports in egress rules that can
+select an IP block, whose failure could be masked by the rule order.) -/
 structure NpGood (np : NetPol) : Prop where
   ingress : ∀ r ∈ np.ingress, r.Valid
   egress : ∀ r ∈ np.egress, r.Valid
-  noNamed : NoNamedPortOnIP np
 
 instance (np : NetPol) : Decidable (NpGood np) :=
-  decidable_of_iff ((∀ r ∈ np.ingress, r.Valid) ∧ (∀ r ∈ np.egress, r.Valid) ∧ NoNamedPortOnIP np)
-    ⟨fun ⟨a, b, c⟩ => ⟨a, b, c⟩, fun ⟨a, b, c⟩ => ⟨a, b, c⟩⟩
+  decidable_of_iff ((∀ r ∈ np.ingress, r.Valid) ∧ (∀ r ∈ np.egress, r.Valid))
+    ⟨fun ⟨a, b⟩ => ⟨a, b⟩, fun ⟨a, b⟩ => ⟨a, b⟩⟩
 
 theorem NpGood.sim {p p' : NetPol} (hs : NpSim p p') (h : NpGood p) : NpGood p' :=
-  ⟨hs.ingress.valid h.ingress, hs.egress.valid h.egress, h.noNamed.sim hs⟩
+  ⟨hs.ingress.valid h.ingress, hs.egress.valid h.egress⟩
 
-/-- **one policy, one pair**: two similar policies contribute the same connection set. On ingress
-the destination is the selected pod (`policiesSelecting` of an IP block is empty). -/
+/-- **one policy, one pair**: two similar policies contribute the same connection set or the same
+error -/
 theorem npStep_sim {np np' : NetPol} (hs : NpSim np np') (hg : NpGood np) (src dst : KPeer)
-    (hd : dst.DstOK) (isIngress : Bool) (hi : isIngress = true → dst.isPod = true) :
+    (hd : dst.DstOK) (isIngress : Bool) :
     npStep src dst isIngress np = npStep src dst isIngress np' := by
-  have hg' := hg.sim hs
   cases isIngress with
-  | false =>
-    exact allowedConns_sim hs.ns hs.egress dst dst hd hg.egress
-      (rc_ok_egress hg.egress hg.noNamed dst hd) (rc_ok_egress hg'.egress hg'.noNamed dst hd)
-  | true =>
-    cases dst with
-    | ip r => exact absurd (hi rfl) (by simp [KPeer.isPod])
-    | pod p nso =>
-      exact allowedConns_sim hs.ns hs.ingress src (.pod p nso) hd hg.ingress
-        (fun r hr _ => rc_ok_pod hg.ingress hd r hr) (fun r hr _ => rc_ok_pod hg'.ingress hd r hr)
+  | false => exact allowedConns_sim hs.ns hs.egress dst dst hd hg.egress
+  | true => exact allowedConns_sim hs.ns hs.ingress src dst hd hg.ingress
 
 /-! `selects`, `referencedIPBlocks` -/
 
@@ -881,20 +822,10 @@ theorem netpolConns_sim {e e' : Engine} (h : EngSim e e') (hg : ∀ np ∈ e.net
   rw [hpol.isEmpty_eq]
   split
   · rfl
-  · rename_i hne
-    have hi : isIngress = true → dst.isPod = true := by
-      intro hi
-      subst hi
-      cases dst with
-      | pod p nso => rfl
-      | ip r =>
-        exfalso
-        apply hne
-        simp [policiesSelecting]
-    rw [hpol.foldlM_eq (f := npFold src dst isIngress) (g := npFold src dst isIngress)]
+  · rw [hpol.foldlM_eq (f := npFold src dst isIngress) (g := npFold src dst isIngress)]
     intro a b hab acc
     unfold npFold
-    rw [npStep_sim hab.1 hab.2 src dst hd isIngress hi]
+    rw [npStep_sim hab.1 hab.2 src dst hd isIngress]
 
 theorem xgressConns_sim {e e' : Engine} (h : EngSim e e') (hg : ∀ np ∈ e.netpols, NpGood np)
     (src dst : KPeer) (hd : dst.DstOK) (i : Bool) :
@@ -918,7 +849,7 @@ theorem disjointIPBlocks_sim {e e' : Engine} (h : EngSim e e') :
     ((h.netpols.flatMap_perm fun a b hab => referencedIPBlocks_sim hab).append_right _)
 
 theorem podOwnersMap_sim {e e' : Engine} (h : EngSim e e') : e.podOwnersMap = e'.podOwnersMap := by
-  unfold podOwnersMap
+  unfold podOwnersMap sortedPods
   rw [h.pods]
 
 /-- **the peers list** is literally the same -/
@@ -979,23 +910,8 @@ theorem connsBetweenPeers_sim {e e' : Engine} (h : EngSim e e') (hg : ∀ np ∈
 
 /-! ### the hypotheses on the input -/
 
-/-- the rules of the NetworkPolicies are as the API server accepts them: legal rule ports, no rule
-peer without selector and ipBlock (the NetworkPolicy clause of `PermLayer.PoliciesValid`) -/
-def NPRulesValid (objs : List Obj) : Prop :=
-  ∀ p ∈ npsOf objs, (∀ r ∈ p.ingress, r.Valid) ∧ (∀ r ∈ p.egress, r.Valid)
-
-/-- no NetworkPolicy of the input has a named port in an egress rule that can select an IP block -/
-def NoNamedPorts (objs : List Obj) : Prop := ∀ p ∈ npsOf objs, NoNamedPortOnIP p
-
-/-- no pod of the input is the representative pod of the exposure analysis -/
-def PodsReal (objs : List Obj) : Prop := ∀ p ∈ podsIn objs, p.isRepresentative = false
-
-instance (objs : List Obj) : Decidable (NPRulesValid objs) := by unfold NPRulesValid; infer_instance
-instance (objs : List Obj) : Decidable (NoNamedPorts objs) := by unfold NoNamedPorts; infer_instance
-instance (objs : List Obj) : Decidable (PodsReal objs) := by unfold PodsReal; infer_instance
-
-theorem npRulesValid_of_policiesValid {objs : List Obj} (h : PoliciesValid objs) :
-    NPRulesValid objs := h.1
+/-! (`NPRulesValid objs` — legal rule ports, no empty rule peer — and `PodsReal objs` — no
+representative pod — are defined in `Netpol.Proofs.PermLayer`.) -/
 
 theorem mem_foldl_upsert {α : Type} (key : α → String) (l acc : List α) {x : α}
     (h : x ∈ l.foldl (fun a p => upsert key p a) acc) : x ∈ acc ∨ x ∈ l := by
@@ -1027,15 +943,15 @@ theorem build_podsOK {objs : List Obj} {e : Engine} (h : Engine.build objs = .ok
 theorem normNp_good {p : NetPol} (h : NpGood p) : NpGood (normNp p) := by
   unfold normNp
   split
-  · exact ⟨h.ingress, h.egress, h.noNamed⟩
+  · exact ⟨h.ingress, h.egress⟩
   · exact h
 
 theorem build_npGood {objs : List Obj} {e : Engine} (h : Engine.build objs = .ok e)
-    (hv : NPRulesValid objs) (hn : NoNamedPorts objs) : ∀ np ∈ e.netpols, NpGood np := by
+    (hv : NPRulesValid objs) : ∀ np ∈ e.netpols, NpGood np := by
   intro np hnp
   rw [(build_policies h).1] at hnp
   obtain ⟨q, hq, rfl⟩ := List.mem_map.mp hnp
-  exact normNp_good ⟨(hv q hq).1, (hv q hq).2, hn q hq⟩
+  exact normNp_good ⟨(hv q hq).1, (hv q hq).2⟩
 
 /-! ### the Ingress / Route lines -/
 
@@ -1127,12 +1043,12 @@ open WorldDriver in
 /-- **C08, part 2: the `list` report does not depend on the inner order of the
 NetworkPolicies.** Reordering the ingress / egress rules of any number of NetworkPolicies, the
 peers and the ports inside their rules, and their `policyTypes` leaves `runList` unchanged — the
-same report or the same error — provided the rules are valid, the pods are real pods with legal
-container ports, and no named port can meet an IP block (`NoNamedPorts`, which excludes the
-order-dependent failure documented below). No assumption on keys, Services, Ingresses, Routes or
-admin policies; `build` may fail. -/
+same report or the same error — provided the rules are valid and the pods are real pods with legal
+container ports. (`allowedConns` examines every rule: a named port towards an IP block fails the
+policy wherever its rule stands.) No assumption on keys, Services, Ingresses, Routes or admin
+policies; `build` may fail. -/
 theorem runList_rules_perm {objs objs' : List Obj} (h : Forall₂ ObjSim objs objs')
-    (hv : NPRulesValid objs) (hn : NoNamedPorts objs) (hr : PodsReal objs)
+    (hv : NPRulesValid objs) (hr : PodsReal objs)
     (hpp : PodPortsValid objs) (focus : String) :
     runList objs focus = runList objs' focus := by
   have hsim := build_sim h
@@ -1152,7 +1068,7 @@ theorem runList_rules_perm {objs objs' : List Obj} (h : Forall₂ ObjSim objs ob
     | ok e' =>
       rw [hb, hb'] at hsim
       have hs : EngSim e e' := hsim
-      have hg := build_npGood hb hv hn
+      have hg := build_npGood hb hv
       have hp := build_podsOK hb hr hpp
       unfold runList
       simp only [hb, hb']
@@ -1171,274 +1087,38 @@ theorem runList_rules_perm {objs objs' : List Obj} (h : Forall₂ ObjSim objs ob
 
 /-- the same, from the validity hypothesis of `PermLayer` -/
 theorem runList_rules_perm' {objs objs' : List Obj} (h : Forall₂ ObjSim objs objs')
-    (hv : PoliciesValid objs) (hn : NoNamedPorts objs) (hr : PodsReal objs)
+    (hv : PoliciesValid objs) (hr : PodsReal objs)
     (hpp : PodPortsValid objs) (focus : String) :
     WorldDriver.runList objs focus = WorldDriver.runList objs' focus :=
-  runList_rules_perm h (npRulesValid_of_policiesValid hv) hn hr hpp focus
+  runList_rules_perm h (npRulesValid_of_policiesValid hv) hr hpp focus
 
-/-! ## E'. without the hypothesis on named ports
-
-The order dependence is exactly the masking of `Err.namedPortOnIP`: without `NoNamedPorts` the two
-reports are equal, or one of them is `(err namedPortOnIP)`. -/
-
-/-- the rules of the policy are valid -/
-def NpValid (np : NetPol) : Prop := (∀ r ∈ np.ingress, r.Valid) ∧ (∀ r ∈ np.egress, r.Valid)
-
-theorem npStep_or {np np' : NetPol} (hs : NpSim np np') (hv : NpValid np) (src dst : KPeer)
-    (hd : dst.DstOK) (isIngress : Bool) :
-    EqOrNP (npStep src dst isIngress np) (npStep src dst isIngress np') := by
-  cases isIngress with
-  | false => exact allowedConns_or hs.ns hs.egress dst dst hd hv.2
-  | true => exact allowedConns_or hs.ns hs.ingress src dst hd hv.1
-
-theorem Forall₂.foldlM_or {α β σ : Type} {R : α → β → Prop} {f : σ → α → Except Err σ}
-    {g : σ → β → Except Err σ} {l : List α} {l' : List β} (h : Forall₂ R l l')
-    (hfg : ∀ a b, R a b → ∀ s, EqOrNP (f s a) (g s b)) (init : σ) :
-    EqOrNP (l.foldlM f init) (l'.foldlM g init) := by
-  induction h generalizing init with
-  | nil => exact .refl _
-  | @cons a b l l' hab _ ih =>
-    rw [List.foldlM_cons, List.foldlM_cons]
-    exact (hfg a b hab init).bind fun s _ => ih s
-
-theorem foldlM_or {α σ : Type} {f g : σ → α → Except Err σ} {l : List α}
-    (h : ∀ a ∈ l, ∀ s, EqOrNP (f s a) (g s a)) (init : σ) :
-    EqOrNP (l.foldlM f init) (l.foldlM g init) := by
-  induction l generalizing init with
-  | nil => exact .refl _
-  | cons a l ih =>
-    rw [List.foldlM_cons, List.foldlM_cons]
-    exact (h a (List.mem_cons_self ..) init).bind fun s _ =>
-      ih (fun a' ha' => h a' (List.mem_cons_of_mem _ ha')) s
-
-theorem collect_or {α β : Type} {g g' : α → Except Err (List β)} {l : List α}
-    (h : ∀ a ∈ l, EqOrNP (g a) (g' a)) : EqOrNP (collect g l) (collect g' l) := by
-  induction l with
-  | nil => exact .refl _
-  | cons a l ih =>
-    have ih' := ih (fun a' ha' => h a' (List.mem_cons_of_mem _ ha'))
-    unfold collect
-    rcases h a (List.mem_cons_self ..) with h1 | h1 | h1
-    · rw [h1]
-      cases g' a with
-      | error err => exact .refl _
-      | ok x =>
-        simp only
-        rcases ih' with h2 | h2 | h2
-        · rw [h2]; exact .refl _
-        · rw [h2]; exact Or.inr (Or.inl rfl)
-        · rw [h2]; exact Or.inr (Or.inr rfl)
-    · rw [h1]; exact Or.inr (Or.inl rfl)
-    · rw [h1]; exact Or.inr (Or.inr rfl)
-
-theorem netpolConns_or {e e' : Engine} (h : EngSim e e') (hv : ∀ np ∈ e.netpols, NpValid np)
-    (src dst : KPeer) (hd : dst.DstOK) (isIngress : Bool) :
-    EqOrNP (e.netpolConns src dst isIngress) (e'.netpolConns src dst isIngress) := by
-  rw [netpolConns_eq, netpolConns_eq]
-  have hpol := policiesSelecting_sim h hv (selfPeer src dst isIngress) (dirOf isIngress)
-  rw [hpol.isEmpty_eq]
-  split
-  · exact .refl _
-  · refine (hpol.foldlM_or (f := npFold src dst isIngress) (g := npFold src dst isIngress)
-      (fun a b hab acc => ?_) _).bind fun res _ => .refl _
-    unfold npFold
-    exact (npStep_or hab.1 hab.2 src dst hd isIngress).bind fun c _ => .refl _
-
-theorem xgressConns_or {e e' : Engine} (h : EngSim e e') (hv : ∀ np ∈ e.netpols, NpValid np)
-    (src dst : KPeer) (hd : dst.DstOK) (i : Bool) :
-    EqOrNP (e.xgressConns src dst i) (e'.xgressConns src dst i) := by
-  unfold xgressConns
-  rw [anpConns_equiv h.anps, defaultConns_equiv h.banp]
-  refine (EqOrNP.refl _).bind fun pc _ => ?_
-  obtain ⟨anp, cap⟩ := pc
-  simp only
-  split
-  · exact .refl _
-  · exact (netpolConns_or h hv src dst hd i).bind fun np _ => .refl _
-
-theorem peerConns_or {e e' : Engine} (h : EngSim e e') (hv : ∀ np ∈ e.netpols, NpValid np)
-    (src dst : KPeer) (hd : dst.DstOK) : EqOrNP (e.peerConns src dst) (e'.peerConns src dst) := by
-  unfold peerConns
-  cases isPodToItself src dst
-  · simp only [Bool.false_eq_true, if_false]
-    refine (xgressConns_or h hv src dst hd false).bind fun res _ => ?_
-    split
-    · exact .refl _
-    · exact (xgressConns_or h hv src dst hd true).bind fun ing _ => .refl _
-  · exact .refl _
-
-theorem pairEntry_or {e e' : Engine} (h : EngSim e e') (hv : ∀ np ∈ e.netpols, NpValid np)
-    (focus : String) (s d : LPeer) (hd : ∀ k, e.toKPeer d = .ok k → k.DstOK) :
-    EqOrNP (pairEntry e focus s d) (pairEntry e' focus s d) := by
-  unfold pairEntry
-  rw [← toKPeer_sim h s, ← toKPeer_sim h d]
-  by_cases c1 : (s.isIP && d.isIP) = true
-  · rw [if_pos c1, if_pos c1]; exact .refl _
-  rw [if_neg c1, if_neg c1]
-  by_cases c2 : (s.str == d.str) = true
-  · rw [if_pos c2, if_pos c2]; exact .refl _
-  rw [if_neg c2, if_neg c2]
-  by_cases c3 : (!(isFocus focus s || isFocus focus d)) = true
-  · rw [if_pos c3, if_pos c3]; exact .refl _
-  rw [if_neg c3, if_neg c3]
-  cases e.toKPeer s with
-  | error err => exact .refl _
-  | ok ks =>
-    simp only
-    cases hkd : e.toKPeer d with
-    | error err => exact .refl _
-    | ok kd =>
-      simp only
-      rcases peerConns_or h hv ks kd (hd kd hkd) with h1 | h1 | h1
-      · rw [h1]; exact .refl _
-      · rw [h1]; exact Or.inr (Or.inl rfl)
-      · rw [h1]; exact Or.inr (Or.inr rfl)
-
-theorem connsBetweenPeers_or {e e' : Engine} (h : EngSim e e')
-    (hv : ∀ np ∈ e.netpols, NpValid np) (hp : PodsOK e) {peers : List LPeer}
-    (hpl : e.peersList = .ok peers) (focus : String) :
-    EqOrNP (e.connsBetweenPeers peers focus) (e'.connsBetweenPeers peers focus) := by
-  rw [connsBetweenPeers_eq, connsBetweenPeers_eq]
-  apply collect_or
-  intro s _
-  apply collect_or
-  intro d hd
-  apply pairEntry_or h hv
-  intro k hk
-  cases d with
-  | ip r => cases hk; trivial
-  | wl m q => exact dstOK_of_toKPeer hp (peersList_wl hpl hd).2 hk
-
-theorem entryStep_or {e e' : Engine} (h : EngSim e e') (hv : ∀ np ∈ e.netpols, NpValid np)
-    (focus : String) (acc : List Entry × List String) (n : String) (p : Pod) (c : ConnSet)
-    (hd : ∀ k, e.toKPeer (.wl n p) = .ok k → k.DstOK) :
-    EqOrNP (IngressLayer.entryStep e focus acc (n, p, c))
-      (IngressLayer.entryStep e' focus acc (n, p, c)) := by
-  simp only [IngressLayer.entryStep]
-  rw [← toKPeer_sim h, ← toKPeer_sim h]
-  cases isFocus focus IngressLayer.ingressSrc || isFocus focus (LPeer.wl n p)
-  · exact .refl _
-  · simp only [Bool.not_true, Bool.false_eq_true, if_false]
-    exact (EqOrNP.refl _).bind fun ks _ => (EqOrNP.refl _).bind fun kd hkd =>
-      (peerConns_or h hv ks kd (hd kd hkd)).bind fun pc _ => .refl _
-
-theorem ingressEntries_or {objs objs' : List Obj} (hobj : Forall₂ ObjSim objs objs')
-    {e e' : Engine} (h : EngSim e e') (hv : ∀ np ∈ e.netpols, NpValid np) (hp : PodsOK e)
-    {owners : List (String × Pod)} (ho : e.podOwnersMap = .ok owners) (focus : String) :
-    EqOrNP (IngressA.ingressEntries e objs owners focus)
-      (IngressA.ingressEntries e' objs' owners focus) := by
-  rw [IngressLayer.ingressEntries_eq, IngressLayer.ingressEntries_eq, ← allowedIngress_sim hobj]
-  cases hl : IngressA.allowedIngress objs owners with
-  | none => exact .refl _
-  | some l =>
-    simp only
-    apply foldlM_or
-    intro x hx acc
-    obtain ⟨n, p, c⟩ := x
-    have hf := ingressEngine_fields e
-    apply entryStep_or (ingressEngine_sim h) (by rw [hf.2]; exact hv)
-    intro k hk
-    have hpe : p ∈ e.pods := allowedIngress_pods ho hl hx
-    have hp' : PodsOK (IngressLayer.ingressEngine e) := by
-      intro q hq
-      rw [hf.1] at hq
-      exact hp q hq
-    exact dstOK_of_toKPeer hp' (by rw [hf.1]; exact hpe) hk
-
-theorem build_npValid {objs : List Obj} {e : Engine} (h : Engine.build objs = .ok e)
-    (hv : NPRulesValid objs) : ∀ np ∈ e.netpols, NpValid np := by
-  intro np hnp
-  rw [(build_policies h).1] at hnp
-  obtain ⟨q, hq, rfl⟩ := List.mem_map.mp hnp
-  unfold NpValid
-  rw [(normNp_rules q).1, (normNp_rules q).2]
-  exact hv q hq
-
-open WorldDriver in
-/-- **C08, part 2, sharp form.** Without any hypothesis on named ports: reordering the inner parts
-of the NetworkPolicies leaves the report unchanged, or turns it into / from `(err namedPortOnIP)`.
-The rule order has no other effect. -/
+/-- the former sharp form (equal, or one of the reports is `(err namedPortOnIP)`), kept for its
+name: since `allowedConns` examines every rule the reports are simply equal -/
 theorem runList_rules_perm_or {objs objs' : List Obj} (h : Forall₂ ObjSim objs objs')
     (hv : NPRulesValid objs) (hr : PodsReal objs) (hpp : PodPortsValid objs) (focus : String) :
-    runList objs focus = runList objs' focus ∨ runList objs focus = errSx .namedPortOnIP ∨
-      runList objs' focus = errSx .namedPortOnIP := by
-  have hsim := build_sim h
-  cases hb : Engine.build objs with
-  | error err =>
-    cases hb' : Engine.build objs' with
-    | error err' =>
-      rw [hb, hb'] at hsim
-      have : err = err' := hsim
-      subst this
-      left
-      unfold runList
-      rw [hb, hb']
-    | ok e' => rw [hb, hb'] at hsim; exact absurd hsim id
-  | ok e =>
-    cases hb' : Engine.build objs' with
-    | error err' => rw [hb, hb'] at hsim; exact absurd hsim id
-    | ok e' =>
-      rw [hb, hb'] at hsim
-      have hs : EngSim e e' := hsim
-      have hg := build_npValid hb hv
-      have hp := build_podsOK hb hr hpp
-      unfold runList
-      simp only [hb, hb']
-      rw [← hs.pods, ← peersList_sim hs, ← podOwnersMap_sim hs]
-      cases e.pods.isEmpty
-      case true => exact Or.inl rfl
-      simp only [Bool.false_eq_true, if_false]
-      cases hpl : e.peersList with
-      | error err => exact Or.inl rfl
-      | ok peers =>
-        cases ho : e.podOwnersMap with
-        | error err => exact Or.inl rfl
-        | ok owners =>
-          simp only
-          rw [← allowedIngress_sim h owners]
-          cases hfe : PermLayer.focusExists focus (IngressA.allowedIngress objs owners).isSome
-            (peers.any (Engine.isFocus focus))
-          case false =>
-            unfold PermLayer.focusExists at hfe
-            simp only [hfe]
-            exact Or.inl rfl
-          unfold PermLayer.focusExists at hfe
-          simp only [hfe, Bool.not_true, Bool.false_eq_true, if_false]
-          have h1 := connsBetweenPeers_or hs hg hp hpl focus
-          have h2 := ingressEntries_or h hs hg hp ho focus
-          generalize e.connsBetweenPeers peers focus = cb at h1
-          generalize e'.connsBetweenPeers peers focus = cb' at h1
-          generalize IngressA.ingressEntries e objs owners focus = ie at h2
-          generalize IngressA.ingressEntries e' objs' owners focus = ie' at h2
-          rcases h1 with h1 | h1 | h1
-          · subst h1
-            cases cb with
-            | error err => exact Or.inl rfl
-            | ok entries =>
-              rcases h2 with h2 | h2 | h2
-              · subst h2; exact Or.inl rfl
-              · subst h2; exact Or.inr (Or.inl rfl)
-              · subst h2; exact Or.inr (Or.inr rfl)
-          · subst h1; exact Or.inr (Or.inl rfl)
-          · subst h1; exact Or.inr (Or.inr rfl)
+    WorldDriver.runList objs focus = WorldDriver.runList objs' focus ∨
+      WorldDriver.runList objs focus = WorldDriver.errSx .namedPortOnIP ∨
+      WorldDriver.runList objs' focus = WorldDriver.errSx .namedPortOnIP :=
+  Or.inl (runList_rules_perm h hv hr hpp focus)
 
 /-! ## F. findings and non-vacuity
 
-**Finding (rule order decides between a report and an error).** `allowedConns.go` stops
-evaluating rules once the accumulated set is All Connections. A later rule whose evaluation would
-fail — a named port in an egress rule that selects an IP block, `Err.namedPortOnIP` — is
-therefore masked or not depending on the rule order. With the egress rules
+**Former finding (repaired): rule order decided between a report and an error.**
+`allowedConns.go` used to stop evaluating rules once the accumulated set was All Connections, so a
+later rule whose evaluation fails — a named port in an egress rule that selects an IP block,
+`Err.namedPortOnIP` — was masked or not depending on the rule order: with the egress rules
 `r1 = {}` (everything) and `r2 = {to: [ipBlock 10.0.0.0/8], ports: [http]}`, the order `[r1, r2]`
-yields a report and the order `[r2, r1]` yields `(err namedPortOnIP)`. This is why
-`runList_rules_perm` assumes `NoNamedPorts`.
+gave a report and the order `[r2, r1]` gave `(err namedPortOnIP)` (also on the Go code). Now every
+rule is examined and both orders give `(err namedPortOnIP)` (`rule_order_repaired`, `report_err`).
 
 The order of the *ports* inside one rule never matters for failure (`ruleConnections` has no early
 exit: towards an IP block it fails iff some port is named, `NetPol.ruleConnections_ip_err_iff`),
-and there is only one error the layer can raise on valid rules. The order of the *peers* inside a
-rule matters only for rules the API server rejects: `ruleSelectsPeer` returns at the first
-matching peer, so an empty peer (`.sel none none`, `Err.emptyRulePeer`) behind a matching peer is
-masked; likewise a rule with an empty peer behind a rule that allows everything. These are
-excluded by `NPRule.Valid`. -/
+and there is only one error the layer can raise on valid rules. What `NPRule.Valid` still excludes
+(rules the API server rejects): `ruleSelectsPeer` returns at the first matching peer, so an empty
+peer (`.sel none none`, `Err.emptyRulePeer`) behind a matching peer is masked by the *peer* order;
+and when a policy holds both a rule with an empty peer and a rule with a named port towards an IP
+block, the first failing rule decides *which* error is reported, which depends on the *rule*
+order. -/
 namespace Findings
 
 local instance decEqExcept {ε α : Type} [DecidableEq ε] [DecidableEq α] : DecidableEq (Except ε α) := by
@@ -1477,13 +1157,12 @@ def worldErr : List Obj := [.pod podA, .np (mkNp [r2, r1])]
 
 example : Forall₂ ObjSim worldOK worldErr := by decide
 
-/-- all hypotheses of `runList_rules_perm` hold but `NoNamedPorts` -/
-example : NPRulesValid worldOK ∧ PodsReal worldOK ∧ PodPortsValid worldOK ∧
-    ¬ NoNamedPorts worldOK := by decide
+/-- all hypotheses of `runList_rules_perm` hold -/
+theorem world_hyps : NPRulesValid worldOK ∧ PodsReal worldOK ∧ PodPortsValid worldOK := by decide
 
-/-- the policy layer: masked in one order, raised in the other -/
+/-- the policy layer: raised in both orders (it used to be masked in the first) -/
 example :
-    (mkNp [r1, r2]).egressAllowedConns (.ip [range10]) = .ok (ConnSet.mk' true) ∧
+    (mkNp [r1, r2]).egressAllowedConns (.ip [range10]) = .error .namedPortOnIP ∧
     (mkNp [r2, r1]).egressAllowedConns (.ip [range10]) = .error .namedPortOnIP := by decide
 
 def engOf (eg : List NPRule) : Engine :=
@@ -1493,7 +1172,8 @@ theorem build_world (eg : List NPRule) : Engine.build [.pod podA, .np (mkNp eg)]
 
 /-- one pair of the engines `build` returns: pod `a` → 10.0.0.0/8 -/
 example :
-    (engOf [r1, r2]).peerConns (.pod podA (some nsDefault)) (.ip [range10]) = .ok (ConnSet.mk' true) ∧
+    (engOf [r1, r2]).peerConns (.pod podA (some nsDefault)) (.ip [range10]) =
+      .error .namedPortOnIP ∧
     (engOf [r2, r1]).peerConns (.pod podA (some nsDefault)) (.ip [range10]) =
       .error .namedPortOnIP := by decide
 
@@ -1508,10 +1188,16 @@ theorem blocks_eq (eg : List NPRule) (h : (mkNp eg).referencedIPBlocks = [range1
   simp [partition, range10, List.mergeSort, List.MergeSort.Internal.splitInTwo, ipMax,
     List.eraseDups_cons]
 
+/-- the owner map of both worlds (`podOwnersMap_eq`: `decide` does not unfold the `mergeSort` of
+`sortedPods`) -/
+theorem owners_eq (eg : List NPRule) : (engOf eg).podOwnersMap = .ok [("default/a[Pod]", podA)] := by
+  rw [Structure.podOwnersMap_eq (l := [podA]) (List.Perm.refl _) (by decide)]
+  rfl
+
 theorem peersList_eq' (eg : List NPRule) (h : (mkNp eg).referencedIPBlocks = [range10]) :
     (engOf eg).peersList = .ok peers := by
   unfold peersList
-  rw [blocks_eq eg h]
+  rw [blocks_eq eg h, owners_eq]
   rfl
 
 def isErr {α : Type} (x : Except Err α) (e : Err) : Bool :=
@@ -1539,45 +1225,23 @@ theorem exists_of_isOk {α : Type} {x : Except Err α} (h : isOk x = true) : ∃
 theorem report_err : WorldDriver.runList worldErr "" = WorldDriver.errSx .namedPortOnIP := by
   have hb : Engine.build worldErr = .ok (engOf [r2, r1]) := build_world _
   have hpl := peersList_eq' [r2, r1] (by decide)
-  have ho : (engOf [r2, r1]).podOwnersMap = .ok [("default/a[Pod]", podA)] := by decide
+  have ho : (engOf [r2, r1]).podOwnersMap = .ok [("default/a[Pod]", podA)] := owners_eq _
   have hc : (engOf [r2, r1]).connsBetweenPeers peers "" = .error .namedPortOnIP :=
     eq_of_isErr (by decide)
   unfold WorldDriver.runList
   simp only [hb, hpl, ho, hc]
   rfl
 
-/-- **the report, order `[r1, r2]`**: an `ok` report (`#eval`: the three IP ranges and
-`default/a[Pod]` as peers, All Connections between the pod and every range, both ways) -/
-theorem report_ok : ∃ l, WorldDriver.runList worldOK "" = .list (.atom "ok" :: l) := by
-  have hb : Engine.build worldOK = .ok (engOf [r1, r2]) := build_world _
-  have hpl := peersList_eq' [r1, r2] (by decide)
-  have ho : (engOf [r1, r2]).podOwnersMap = .ok [("default/a[Pod]", podA)] := by decide
-  have hc : ∃ es, (engOf [r1, r2]).connsBetweenPeers peers "" = .ok es :=
-    exists_of_isOk (by decide)
-  obtain ⟨es, hc⟩ := hc
-  have hi := ingressEntries_none (objs := worldOK) rfl (engOf [r1, r2])
-    [("default/a[Pod]", podA)] ""
-  unfold WorldDriver.runList
-  simp only [hb, hpl, ho, hc, hi]
-  exact ⟨_, rfl⟩
+/-- **the two orders give the same report** — the former counterexample, now an instance of the
+theorem -/
+theorem rule_order_repaired (focus : String) :
+    WorldDriver.runList worldOK focus = WorldDriver.runList worldErr focus :=
+  runList_rules_perm (by decide) world_hyps.1 world_hyps.2.1 world_hyps.2.2 focus
 
-/-- the two orders give different reports -/
-theorem rule_order_matters : WorldDriver.runList worldOK "" ≠ WorldDriver.runList worldErr "" := by
-  obtain ⟨l, hl⟩ := report_ok
-  rw [hl, report_err]
-  intro h
-  simp [WorldDriver.errSx] at h
-
-/-! `#eval` of the two reports (checked when the file was written):
-`runList worldOK ""` =
-`(ok (peers 0.0.0.0-9.255.255.255 10.0.0.0-10.255.255.255 11.0.0.0-255.255.255.255 default/a[Pod])
- (e 0.0.0.0-9.255.255.255 default/a[Pod] All_Connections)
- (e 10.0.0.0-10.255.255.255 default/a[Pod] All_Connections)
- (e 11.0.0.0-255.255.255.255 default/a[Pod] All_Connections)
- (e default/a[Pod] 0.0.0.0-9.255.255.255 All_Connections)
- (e default/a[Pod] 10.0.0.0-10.255.255.255 All_Connections)
- (e default/a[Pod] 11.0.0.0-255.255.255.255 All_Connections))`,
-`runList worldErr ""` = `(err namedPortOnIP)`. -/
+/-- … namely `(err namedPortOnIP)` in the order `[r1, r2]` too (before the repair: a report with
+All Connections between the pod and the three IP ranges) -/
+theorem report_err' : WorldDriver.runList worldOK "" = WorldDriver.errSx .namedPortOnIP := by
+  rw [rule_order_repaired, report_err]
 
 /-! the order of the ports inside one rule: the same error in every order -/
 example :
@@ -1599,12 +1263,20 @@ example :
       (.pod podB (some nsDefault)) = .error .emptyRulePeer ∧
     ¬ (⟨[.sel (some ⟨[("app", "b")], []⟩) none, .sel none none], []⟩ : NPRule).Valid := by decide
 
-/-- likewise the rule order masks a rule with an empty peer behind a rule that allows everything -/
+/-- a rule with an empty peer behind a rule that allows everything is no longer masked by the rule
+order … -/
 example :
     (mkNp [r1, ⟨[.sel none none], []⟩]).egressAllowedConns (.pod podB (some nsDefault)) =
-      .ok (ConnSet.mk' true) ∧
+      .error .emptyRulePeer ∧
     (mkNp [⟨[.sel none none], []⟩, r1]).egressAllowedConns (.pod podB (some nsDefault)) =
       .error .emptyRulePeer := by decide
+
+/-- … but with two *different* failing rules the first one decides which error is reported: the
+kind of error still depends on the rule order for policies `NPRule.Valid` excludes -/
+example :
+    (mkNp [r2, ⟨[.sel none none], []⟩]).egressAllowedConns (.ip [range10]) = .error .namedPortOnIP ∧
+    (mkNp [⟨[.sel none none], []⟩, r2]).egressAllowedConns (.ip [range10]) = .error .emptyRulePeer ∧
+    ¬ (⟨[.sel none none], []⟩ : NPRule).Valid := by decide
 
 end Findings
 
@@ -1629,7 +1301,7 @@ def ruleA' : NPRule :=
 def ruleB : NPRule := ⟨[fromProd], [⟨none, .num 443 none⟩]⟩
 def egA : NPRule := ⟨[blk], [⟨none, .num 443 none⟩, ⟨some .UDP, .num 53 none⟩]⟩
 def egA' : NPRule := ⟨[blk], [⟨some .UDP, .num 53 none⟩, ⟨none, .num 443 none⟩]⟩
-/-- a named port in an egress rule is fine as long as the rule cannot select an IP block -/
+/-- a named port in an egress rule that cannot select an IP block -/
 def egB : NPRule := ⟨[fromProd], [⟨none, .name "pg"⟩]⟩
 
 def pol : NetPol :=
@@ -1653,12 +1325,12 @@ example : ¬ Forall₂ ObjSim objs
 
 example : pol ≠ pol' := by decide
 
-theorem objs_hyps : NPRulesValid objs ∧ NoNamedPorts objs ∧ PodsReal objs ∧ PodPortsValid objs := by
+theorem objs_hyps : NPRulesValid objs ∧ PodsReal objs ∧ PodPortsValid objs := by
   decide
 
 /-- the theorem at work -/
 example (focus : String) : WorldDriver.runList objs focus = WorldDriver.runList objs' focus :=
-  runList_rules_perm objs_sim objs_hyps.1 objs_hyps.2.1 objs_hyps.2.2.1 objs_hyps.2.2.2 focus
+  runList_rules_perm objs_sim objs_hyps.1 objs_hyps.2.1 objs_hyps.2.2 focus
 
 end Example
 
